@@ -1,0 +1,12 @@
+//go:build !verif
+
+// Package verifhook provides scheduling points and trace events for the external
+// verification harness. Without the "verif" build tag every function is an empty,
+// inlinable no-op.
+package verifhook
+
+// Yield marks a scheduling point. No-op without the verif build tag.
+func Yield(string) {}
+
+// Event records a trace event. No-op without the verif build tag.
+func Event(string, ...any) {}
